@@ -6,6 +6,7 @@ package c12
 import (
 	"encoding/base64"
 	"fmt"
+	"github.com/emitter-io/emitter/internal/event"
 	"math/rand"
 	"sort"
 	"strings"
@@ -52,6 +53,9 @@ type Case struct {
 	Key   KeySpec `json:"key"`
 	Other KeySpec `json:"other"`
 	Mod   Mod     `json:"mod"`
+	// Banned: the issued key has been banned before the modified string is presented: the original grants nothing any
+	// more, so a modified spelling that still works (another alphabet, padding, a suffix) is more powerful than the original
+	Banned bool `json:"banned,omitempty"`
 }
 
 var targets = []string{"a/", "a/b/", "a/#/", "+/b/", "b/", "a/b/#/", "#/"}
@@ -95,6 +99,7 @@ func genCase(t *rapid.T) Case {
 		}
 	}
 	c.Mod = m
+	c.Banned = rapid.IntRange(0, 4).Draw(t, "banned") == 0
 	return c
 }
 
@@ -216,7 +221,15 @@ func run(c Case) vkit.Result {
 	if mod == enc {
 		return vkit.Result{Excluded: true, Labels: []string{"modification-is-identity"}}
 	}
+	if c.Banned {
+		ban := event.Ban(enc)
+		e.b.S.VerifSwarm().Notify(&ban, true)
+		defer e.b.S.VerifSwarm().Notify(&ban, false)
+	}
 	base := granted(e, enc)
+	if c.Banned && len(base) > 0 {
+		return vkit.Failf("license v%d: a banned key still grants %d probe operations", c.Lic, len(base))
+	}
 	if c.Mod.Kind == "splice" {
 		if mod == other {
 			return vkit.Result{Excluded: true, Labels: []string{"modification-is-identity"}}
@@ -243,6 +256,9 @@ func run(c Case) vkit.Result {
 	// those are counted, and still subject to the probe-set oracle above. Under v3 the two clear salt bytes select the keystream:
 	// a modification that changes them (or splices keys of different salt) decrypts the rest with an unknown keystream difference.
 	labels := []string{fmt.Sprintf("license-v%d", c.Lic), "mod-" + c.Mod.Kind}
+	if c.Banned {
+		labels = append(labels, "original-banned")
+	}
 	if msg := fieldGain(e, c, enc, other, mod); msg != "" {
 		ra, _ := base64.RawURLEncoding.DecodeString(enc)
 		rb, _ := base64.RawURLEncoding.DecodeString(mod)
